@@ -103,16 +103,24 @@ def mseBodyPrefix (a : List Rat) : Rat := varP a
 def iqrBody (a : List Rat) : Rat :=
   percentile a (Generated.IQR_PERCENTILES.getD 0 0) - percentile a (Generated.IQR_PERCENTILES.getD 1 0)
 
-/-- one pass of `biloc_iter(a, initial)`; second component: distance to a discontinuity
-    (`w < 1` mask, `weightsum == 0`) -/
+/-- one pass of `biloc_iter(a, initial)`; second component: distance to a discontinuity (the
+    outlier mask, `weightsum == 0`).  The mask follows the source: `abs(u) < 1` taken before the
+    weights are formed (repaired code, fix O) or `w < 1` on the transformed weights (as originally
+    coded), see `Generated.BILOC_MASK_ON_ABS_U`. -/
 def bilocIter (a : List Rat) (initial : Rat) : Rat × Rat :=
   let d := a.map (· - initial)
   let mad := median (d.map rabs)
   let den := max (Generated.BILOC_C * mad) Generated.BILOC_EPSILON
-  let w := d.map (fun x => let u := x / den; (1 - u * u) * (1 - u * u))
-  let kept := (d.zip w).filter (fun p => p.2 < 1)
+  let u := d.map (· / den)
+  let w := u.map (fun x => (1 - x * x) * (1 - x * x))
+  let keep : List Bool :=
+    if Generated.BILOC_MASK_ON_ABS_U then u.map (fun x => decide (rabs x < 1))
+    else w.map (fun x => decide (x < 1))
+  let kept := (((d.zip w).zip keep).filter (·.2)).map (·.1)
   let wsum := (kept.map (·.2)).sum
-  let sMask := (w.filter (· ≠ 1)).foldl (fun s x => min s (rabs (x - 1))) 1
+  let sMask :=
+    if Generated.BILOC_MASK_ON_ABS_U then u.foldl (fun s x => min s (rabs (rabs x - 1))) 1
+    else (w.filter (· ≠ 1)).foldl (fun s x => min s (rabs (x - 1))) 1
   if wsum == 0 then (initial, if kept.isEmpty then sMask else 0)
   else (initial + (kept.map (fun p => p.1 * p.2)).sum / wsum, min sMask wsum)
 
@@ -383,6 +391,16 @@ def doBintest (tail : Rat → Rat) (bins : List Bin) (segs : List Seg) (alpha : 
   (bintestAll tail bins segs targetOnly).filter (fun h => h.q < alpha)
 
 /-! ## the property's wording, used by the spec checker on the implementation's output -/
+
+/-- the spread statistics in the property's words, with the numbers the definitions name (IQR = 75th −
+    25th percentile, MAD scaled to a standard deviation by 1.4826) rather than the constants read
+    from the source; everything else is the estimator itself -/
+def specSpreadStat (name : String) : Option (List Rat → StatOut) :=
+  match name with
+  | "mad" => some (onArray (some 0) (fun a =>
+      { val := .num (median (a.map (fun x => rabs (x - median a))) * (7413 / 5000)) }))
+  | "iqr" => some (onArray (some 0) (fun a => { val := .num (percentile a 75 - percentile a 25) }))
+  | _ => spreadStat name
 
 /-- the bins overlapping a segment: same chromosome, `end > seg.start`, `start < seg.end` -/
 def overlapping (bins : List Bin) (sg : Seg) : List Bin :=
